@@ -10,16 +10,32 @@ Local Open Scope Z_scope.
 Definition all_checked (pol : policy) : Prop := forall st, chk pol st = true.
 Lemma spec_all_checked : all_checked spec. Proof. intros st. reflexivity. Qed.
 
-(* a pointer that permits writes never points at something protected *)
+(* a handle that permits writes (declared non-const) was not derived from anything const (pointers, references) and,
+   when nothing up its chain is const, does not point at something protected *)
 Definition Inv (s : state) : Prop :=
-  forall p pt t, nth_error (ptrs s) p = Some pt -> ppc pt = false -> ptgt pt = Some t -> tgt_prot s t = false.
+  forall p pt, nth_error (ptrs s) p = Some pt -> ppc pt = false ->
+    (is_alias pt = false -> pp1 pt = false /\ ppd pt = false) /\
+    (pp1 pt = false -> ppd pt = false -> forall t, ptgt pt = Some t -> tgt_prot s t = false).
 
 Lemma inv_b_sound s : inv_b s = true -> Inv s.
 Proof.
-  unfold inv_b, Inv. intros H p pt t Hp Hc Ht. rewrite forallb_forall in H.
-  specialize (H pt (nth_error_In _ _ Hp)). unfold ptr_ok in H. rewrite Hc, Ht in H. cbn in H.
-  destruct (tgt_prot s t); [discriminate|reflexivity].
+  unfold inv_b, Inv. intros H p pt Hp Hc. rewrite forallb_forall in H.
+  specialize (H pt (nth_error_In _ _ Hp)). unfold ptr_ok, unprot in H. rewrite Hc in H. cbn [orb] in H.
+  destruct (is_alias pt); split.
+  - discriminate.
+  - intros H1 H2 t Ht. rewrite H1, H2, Ht in H. cbn in H. destruct (tgt_prot s t); [discriminate|reflexivity].
+  - intros _. apply andb_true_iff in H as [H _]. destruct (pp1 pt), (ppd pt); try discriminate; auto.
+  - intros _ _ t Ht. apply andb_true_iff in H as [_ H]. rewrite Ht in H. destruct (tgt_prot s t); [discriminate|reflexivity].
 Qed.
+
+Lemma Inv_writable s p pt : Inv s -> nth_error (ptrs s) p = Some pt -> ppc pt = false -> is_alias pt = false ->
+  hconst pt = false /\ forall t, ptgt pt = Some t -> tgt_prot s t = false.
+Proof.
+  intros HI Hp Hc Ha. destruct (HI p pt Hp Hc) as [H1 H2]. destruct (H1 Ha) as [E1 E2].
+  split; [unfold hconst; rewrite Hc, E1, E2; reflexivity|auto].
+Qed.
+Lemma is_ptr_not_alias pt : is_ptr pt = true -> is_alias pt = false.
+Proof. unfold is_ptr, is_alias. destruct (pkind pt); congruence. Qed.
 
 (* ------------------------------------------------------------------ list updates *)
 Lemma upd_nth_length {A} n (f : A -> A) l : length (upd_nth n f l) = length l.
@@ -73,7 +89,8 @@ Qed.
 
 Lemma Inv_transfer s s' : sig s' = sig s -> ptrs s' = ptrs s -> Inv s -> Inv s'.
 Proof.
-  intros Hs Hp H p pt t Hn Hc Ht. rewrite Hp in Hn. rewrite (tgt_prot_sig _ _ _ Hs). eapply H; eauto.
+  intros Hs Hp H p pt Hn Hc. rewrite Hp in Hn. destruct (H p pt Hn Hc) as [H1 H2]. split; [exact H1|].
+  intros E1 E2 t Ht. rewrite (tgt_prot_sig _ _ _ Hs). eauto.
 Qed.
 
 Lemma no_cmember_nth ob k : has_cmember ob = false -> nth k (omconst ob) false = false.
@@ -83,34 +100,76 @@ Proof.
   - intros H. apply orb_false_iff in H. apply IH. tauto.
 Qed.
 
+Lemma sig_mark b s : sig (mark b s) = sig s. Proof. reflexivity. Qed.
+Lemma sig_add s h : sig (add_handle s h) = sig s. Proof. reflexivity. Qed.
+Lemma sig_set_ptrs s ps : sig (set_ptrs s ps) = sig s. Proof. reflexivity. Qed.
+Lemma sig_whole s o ob vs g : nth_error (objs s) o = Some ob -> Nat.eqb (length vs) (length (ovals ob)) = true ->
+  sig {| objs := upd_nth o (set_vals vs) (objs s); ptrs := ptrs s; gbad := g |} = sig s.
+Proof.
+  intros Eo El. unfold sig; cbn. apply Nat.eqb_eq in El.
+  revert o Eo. generalize (objs s). intros l; induction l as [|a r IH]; intros [|o]; cbn; auto.
+  - intros [= ->]. unfold osig, set_vals; cbn. rewrite El. reflexivity.
+  - intros H. rewrite (IH o H). reflexivity.
+Qed.
+
+(* case analysis of one step: destruct every match / if of the hypothesis, drop the refused and stuck branches *)
+Ltac des H :=
+  repeat match type of H with
+         | context [match ?x with _ => _ end] => let E := fresh "E" in destruct x eqn:E; try discriminate H
+         | context [if ?x then _ else _] => let E := fresh "E" in destruct x eqn:E; try discriminate H
+         end.
+
 (* ------------------------------------------------------------------ one step *)
 Lemma step_sig pol s x s' : step pol s x = Ok s' -> sig s' = sig s.
 Proof.
-  destruct x as [f o k u|o vs|pc cc [src|]|p src|f p m u|param rc o k u|src u|f p d]; cbn [step].
-  - destruct (nth_error (objs s) o) as [ob|]; [|discriminate]. destruct (nth_error (ovals ob) k); [|discriminate].
-    destruct (_ && _); [discriminate|]. intros [= <-]. apply sig_store.
-  - destruct (nth_error (objs s) o) as [ob|] eqn:Eo; [|discriminate].
-    destruct (Nat.eqb (length vs) (length (ovals ob))) eqn:El; cbn [negb]; [|discriminate].
-    destruct (_ && _); [discriminate|]. destruct (_ && _); [discriminate|]. intros [= <-].
-    unfold sig; cbn. apply Nat.eqb_eq in El.
-    clear -El Eo. revert o Eo. generalize (objs s). intros l; induction l as [|a r IH]; intros [|o]; cbn; auto.
-    + intros [= ->]. unfold osig, set_vals; cbn. rewrite El. reflexivity.
-    + intros H. rewrite (IH o H). reflexivity.
-  - destruct (src_target s src); [|discriminate]. destruct (acq_check _ _ _ _ _); [discriminate|]. intros [= <-]. reflexivity.
-  - intros [= <-]. reflexivity.
-  - destruct (nth_error (ptrs s) p) as [pt|]; [|discriminate]. destruct (src_target s src); [|discriminate].
-    destruct (_ && _); [discriminate|]. destruct (acq_check _ _ _ _ _); [discriminate|]. intros [= <-]. reflexivity.
-  - destruct (nth_error (ptrs s) p) as [pt|]; [|discriminate].
-    destruct (store_slot _ _ _) as [[o k']|]; [|discriminate].
-    destruct (nth_error (objs s) o) as [ob|]; [|discriminate]. destruct (nth_error (ovals ob) k'); [|discriminate].
-    destruct (_ && _); [discriminate|]. destruct (_ && _); [discriminate|]. intros [= <-]. apply sig_store.
-  - destruct (nth_error (objs s) o) as [ob|]; [|discriminate]. destruct (nth_error (ovals ob) k); [|discriminate].
-    destruct (_ && _); [discriminate|]. destruct (_ && _); [discriminate|]. intros [= <-]. apply sig_write.
-  - destruct (src_target s src) as [[[o|o k]|]|]; try discriminate.
-    destruct (read_slot s o k); [|discriminate]. destruct (acq_check _ _ _ _ _); [discriminate|]. intros [= <-]. apply sig_write.
-  - destruct (nth_error (ptrs s) p) as [pt|]; [|discriminate]. destruct (ptgt pt) as [[o|o k]|]; try discriminate.
-    destruct (nth_error (objs s) o) as [ob|]; [|discriminate]. destruct (oshape ob); try discriminate.
-    destruct (_ || _); [discriminate|]. destruct (_ && _); [discriminate|]. intros [= <-]. reflexivity.
+  intros Hs. destruct x as [f o k u|o vs|pc cc [src|]|p src|f p m u|param rc o k u|src u|f p d|par rc [o|h]|f h m u|h vs|pc src|h];
+    cbn [step] in Hs.
+  - des Hs; injection Hs as <-; apply sig_store.
+  - des Hs. injection Hs as <-. match goal with H : negb (Nat.eqb _ _) = false |- _ => apply negb_false_iff in H end. eapply sig_whole; eauto.
+  - des Hs; injection Hs as <-; reflexivity.
+  - injection Hs as <-; reflexivity.
+  - des Hs; injection Hs as <-; reflexivity.
+  - des Hs; injection Hs as <-; rewrite sig_mark; apply sig_store.
+  - des Hs; injection Hs as <-; rewrite sig_mark; apply sig_write.
+  - des Hs; injection Hs as <-; rewrite sig_mark; apply sig_write.
+  - des Hs; injection Hs as <-; reflexivity.
+  - des Hs; injection Hs as <-; reflexivity.
+  - des Hs; injection Hs as <-; reflexivity.
+  - des Hs; injection Hs as <-; rewrite ?sig_mark; apply sig_write.
+  - des Hs; injection Hs as <-; rewrite ?sig_mark;
+      match goal with H : negb (Nat.eqb _ _) || _ = false |- _ => apply orb_false_iff in H as [H _]; apply negb_false_iff in H end;
+      eapply sig_whole; eauto.
+  - des Hs; injection Hs as <-; reflexivity.
+  - des Hs; injection Hs as <-; reflexivity.
+Qed.
+
+(* what [Inv] says about one handle *)
+Definition hok (s : state) (pt : ptr) : Prop :=
+  ppc pt = false ->
+    (is_alias pt = false -> pp1 pt = false /\ ppd pt = false) /\
+    (pp1 pt = false -> ppd pt = false -> forall t, ptgt pt = Some t -> tgt_prot s t = false).
+Lemma Inv_hok s : Inv s <-> (forall p pt, nth_error (ptrs s) p = Some pt -> hok s pt).
+Proof. unfold Inv, hok. split; intros H p pt Hp; apply (H p pt Hp). Qed.
+
+Lemma hok_sig s s' pt : sig s' = sig s -> hok s pt -> hok s' pt.
+Proof.
+  intros Hs H Hc. destruct (H Hc) as [H1 H2]. split; [exact H1|]. intros E1 E2 t Ht. rewrite (tgt_prot_sig _ _ _ Hs). eauto.
+Qed.
+
+Lemma Inv_add s h : Inv s -> hok s h -> Inv (add_handle s h).
+Proof.
+  intros HI Hh. apply Inv_hok. intros p pt Hn. cbn [ptrs add_handle] in Hn.
+  apply (hok_sig s); [reflexivity|]. apply nth_error_snoc in Hn as [Hn| ->]; [|exact Hh].
+  apply (proj1 (Inv_hok s) HI p pt Hn).
+Qed.
+
+Lemma Inv_upd s p f : Inv s -> (forall pt, nth_error (ptrs s) p = Some pt -> hok s (f pt)) -> Inv (set_ptrs s (upd_nth p f (ptrs s))).
+Proof.
+  intros HI Hf. apply Inv_hok. intros q pt Hn. cbn [ptrs set_ptrs] in Hn. apply (hok_sig s); [reflexivity|].
+  destruct (Nat.eq_dec p q) as [<-|Hne].
+  - rewrite nth_error_upd_same in Hn. destruct (nth_error (ptrs s) p) as [pt0|] eqn:Ep; cbn in Hn; [|discriminate].
+    injection Hn as <-. auto.
+  - rewrite nth_error_upd_other in Hn by exact Hne. apply (proj1 (Inv_hok s) HI q pt Hn).
 Qed.
 
 Lemma acq_ok pol s md pc src : all_checked pol -> acq_check pol s md pc src = None -> pc = false -> src_const s src = false.
@@ -118,59 +177,89 @@ Proof.
   intros Ha. unfold acq_check. rewrite Ha. intros H ->. cbn in H. destruct (src_const s src); [discriminate|reflexivity].
 Qed.
 
-Lemma src_target_unprot s src tg t : Inv s -> src_target s src = Some tg -> src_const s src = false -> tg = Some t -> tgt_prot s t = false.
+(* a source that is not const gives a clean value: not derived from anything const, not pointing at anything protected *)
+Lemma src_clean s src tg : Inv s -> src_target s src = Some tg -> src_const s src = false ->
+  src_taint s src = false /\ forall t, tg = Some t -> tgt_prot s t = false.
 Proof.
   intros HI. destruct src as [t0|q]; cbn.
-  - destruct (valid_tgt s t0); [|discriminate]. intros [= <-] H [= <-]. exact H.
-  - destruct (nth_error (ptrs s) q) as [pq|] eqn:Eq; [|discriminate]. intros [= <-] Hc Ht. eapply HI; eauto.
+  - destruct (valid_tgt s t0); [|discriminate]. intros [= <-] H. split; [exact H|]. intros t [= <-]. exact H.
+  - destruct (nth_error (ptrs s) q) as [pq|] eqn:Eq; [|discriminate]. destruct (is_ptr pq) eqn:Ek; [|discriminate].
+    intros [= <-] Hc. destruct (Inv_writable s q pq HI Eq Hc (is_ptr_not_alias _ Ek)) as [H1 H2]. split; auto.
+Qed.
+
+Lemma hok_new_ptr pol s md pc cc par src tg : all_checked pol -> Inv s -> src_target s src = Some tg ->
+  acq_check pol s md pc src = None -> hok s (mk_ptr tg pc cc par (src_taint s src)).
+Proof.
+  intros Ha HI Et Ea Hc. cbn in Hc. subst pc.
+  destruct (src_clean s src tg HI Et (acq_ok _ _ _ _ _ Ha Ea eq_refl)) as [H1 H2]. cbn. rewrite H1. repeat split; auto.
 Qed.
 
 Lemma step_inv pol s x s' : all_checked pol -> Inv s -> step pol s x = Ok s' -> Inv s'.
 Proof.
   intros Ha HI Hs. assert (Hsig := step_sig _ _ _ _ Hs).
-  destruct x as [f o k u|o vs|pc cc [src|]|p src|f p m u|param rc o k u|src u|f p d]; cbn [step] in Hs.
-  - apply (Inv_transfer s); auto.
-    destruct (nth_error (objs s) o) as [ob|]; [|discriminate]. destruct (nth_error (ovals ob) k); [|discriminate].
-    destruct (_ && _); [discriminate|]. injection Hs as <-. unfold store. destruct (eff _ _); reflexivity.
-  - apply (Inv_transfer s); auto.
-    destruct (nth_error (objs s) o) as [ob|]; [|discriminate]. destruct (negb _); [discriminate|].
-    destruct (_ && _); [discriminate|]. destruct (_ && _); [discriminate|]. injection Hs as <-. reflexivity.
+  destruct x as [f o k u|o vs|pc cc [src|]|p src|f p m u|param rc o k u|src u|f p d|par rc [o|h]|f h m u|h vs|pc src|h];
+    cbn [step] in Hs.
+  - apply (Inv_transfer s); auto. des Hs; injection Hs as <-; unfold store; destruct (eff _ _); reflexivity.
+  - apply (Inv_transfer s); auto. des Hs; injection Hs as <-; reflexivity.
   - destruct (src_target s src) as [tg|] eqn:Et; [|discriminate].
     destruct (acq_check pol s ADecl pc src) eqn:Ea; [discriminate|]. injection Hs as <-.
-    intros p pt t Hn Hc Ht. cbn [ptrs] in Hn. rewrite (tgt_prot_sig _ _ _ Hsig).
-    apply nth_error_snoc in Hn as [Hn| ->]; [eapply HI; eauto|]. cbn in Hc, Ht. subst pc.
-    eapply src_target_unprot; eauto. eapply acq_ok; eauto.
-  - injection Hs as <-. intros p pt t Hn Hc Ht. cbn [ptrs] in Hn. rewrite (tgt_prot_sig _ _ _ Hsig).
-    apply nth_error_snoc in Hn as [Hn| ->]; [eapply HI; eauto|]. cbn in Ht. discriminate.
+    apply Inv_add; [exact HI|]. eapply hok_new_ptr; eauto.
+  - injection Hs as <-. apply Inv_add; [exact HI|]. intros _. cbn. repeat split; auto. discriminate.
   - destruct (nth_error (ptrs s) p) as [pt0|] eqn:Ep; [|discriminate]. destruct (src_target s src) as [tg|] eqn:Et; [|discriminate].
-    destruct (_ && _); [discriminate|]. destruct (acq_check pol s AAssign (ppc pt0) src) eqn:Ea; [discriminate|]. injection Hs as <-.
-    intros q pt t Hn Hc Ht. cbn [ptrs] in Hn. rewrite (tgt_prot_sig _ _ _ Hsig).
-    destruct (Nat.eq_dec p q) as [<-|Hne].
-    + rewrite nth_error_upd_same, Ep in Hn. cbn in Hn. injection Hn as <-. cbn in Hc, Ht.
-      eapply src_target_unprot; eauto. eapply acq_ok; eauto.
-    + rewrite nth_error_upd_other in Hn by exact Hne. eapply HI; eauto.
-  - apply (Inv_transfer s); auto.
-    destruct (nth_error (ptrs s) p) as [pt|]; [|discriminate].
-    destruct (store_slot _ _ _) as [[o k']|]; [|discriminate].
-    destruct (nth_error (objs s) o) as [ob|]; [|discriminate]. destruct (nth_error (ovals ob) k'); [|discriminate].
-    destruct (_ && _); [discriminate|]. destruct (_ && _); [discriminate|]. injection Hs as <-.
-    unfold store. destruct (eff _ _); reflexivity.
-  - apply (Inv_transfer s); auto.
-    destruct (nth_error (objs s) o) as [ob|]; [|discriminate]. destruct (nth_error (ovals ob) k); [|discriminate].
-    destruct (_ && _); [discriminate|]. destruct (_ && _); [discriminate|]. injection Hs as <-. reflexivity.
-  - apply (Inv_transfer s); auto.
-    destruct (src_target s src) as [[[o|o k]|]|]; try discriminate.
-    destruct (read_slot s o k); [|discriminate]. destruct (acq_check _ _ _ _ _); [discriminate|]. injection Hs as <-. reflexivity.
-  - destruct (nth_error (ptrs s) p) as [pt0|] eqn:Ep; [|discriminate]. destruct (ptgt pt0) as [[o|o k]|] eqn:Et0; try discriminate.
+    destruct (negb (is_ptr pt0)) eqn:Ek; [discriminate|]. destruct (_ && _); [discriminate|].
+    destruct (acq_check pol s AAssign (ppc pt0) src) eqn:Ea; [discriminate|]. injection Hs as <-.
+    apply Inv_upd; [exact HI|]. intros pt Hpt. rewrite Ep in Hpt. injection Hpt as <-.
+    intros Hc. cbn in Hc. destruct (src_clean s src tg HI Et (acq_ok _ _ _ _ _ Ha Ea Hc)) as [H1 H2].
+    cbn. rewrite H1. repeat split; auto.
+  - apply (Inv_transfer s); auto. des Hs; injection Hs as <-; unfold store; destruct (eff _ _); reflexivity.
+  - apply (Inv_transfer s); auto. des Hs; injection Hs as <-; reflexivity.
+  - apply (Inv_transfer s); auto. des Hs; injection Hs as <-; reflexivity.
+  - destruct (nth_error (ptrs s) p) as [pt0|] eqn:Ep; [|discriminate]. destruct (negb (is_ptr pt0)) eqn:Ek; [discriminate|].
+    destruct (ptgt pt0) as [[o|o k]|] eqn:Et0; try discriminate.
     destruct (nth_error (objs s) o) as [ob|] eqn:Eo; [|discriminate]. destruct (oshape ob); try discriminate.
     destruct (has_cmember ob) eqn:Ecm; [discriminate|]. cbn [orb] in Hs.
-    destruct (negb _); [discriminate|]. destruct (_ && _); [discriminate|]. injection Hs as <-.
-    intros q pt t Hn Hc Ht. cbn [ptrs] in Hn. rewrite (tgt_prot_sig _ _ _ Hsig).
-    destruct (Nat.eq_dec p q) as [<-|Hne].
-    + rewrite nth_error_upd_same, Ep in Hn. cbn in Hn. injection Hn as <-. cbn in Hc, Ht. injection Ht as <-.
-      assert (H0 := HI p pt0 (TSlot o k) Ep Hc Et0). cbn in H0 |- *. rewrite Eo in *. unfold slot_prot in *.
-      apply orb_false_iff in H0 as [-> _]. cbn. apply no_cmember_nth. exact Ecm.
-    + rewrite nth_error_upd_other in Hn by exact Hne. eapply HI; eauto.
+    des Hs. injection Hs as <-.
+    apply Inv_upd; [exact HI|]. intros pt Hpt. rewrite Ep in Hpt. injection Hpt as <-.
+    intros Hc. cbn in Hc. apply negb_false_iff in Ek.
+    destruct (Inv_writable s p pt0 HI Ep Hc (is_ptr_not_alias _ Ek)) as [H1 H2].
+    unfold hconst in H1. rewrite Hc in H1. cbn in H1. apply orb_false_iff in H1 as [E1 E2].
+    cbn. rewrite E1. repeat split; auto. intros _ _ t [= <-].
+    specialize (H2 _ Et0). cbn in H2 |- *. rewrite Eo in *. unfold slot_prot in *.
+    apply orb_false_iff in H2 as [-> _]. cbn. apply no_cmember_nth. exact Ecm.
+  - (* OHRef from a bare variable *)
+    destruct (nth_error (objs s) o) as [ob|] eqn:Eo; [|discriminate]. destruct (oshape ob) eqn:Esh.
+    + destruct (negb (valid_tgt s (ref_tgt ob o))); [discriminate|]. rewrite Ha in Hs. cbn [andb] in Hs.
+      destruct (tgt_prot s (ref_tgt ob o) && negb rc) eqn:Ec; [destruct par; discriminate|].
+      assert (Hs' : s' = add_handle s (mk_ref (ref_tgt ob o) rc par (tgt_prot s (ref_tgt ob o)))) by (destruct par; congruence).
+      subst s'. apply Inv_add; [exact HI|]. intros Hc. cbn in Hc. subst rc. rewrite andb_true_r in Ec. cbn. rewrite Ec.
+      repeat split; auto. intros _ _ t [= <-]. exact Ec.
+    + destruct (negb par); [discriminate|]. injection Hs as <-. apply Inv_add; [exact HI|]. intros Hc. cbn.
+      split; [discriminate|]. intros E1 _ t [= <-]. cbn. rewrite Eo. exact E1.
+    + destruct (negb (valid_tgt s (ref_tgt ob o))); [discriminate|]. rewrite Ha in Hs. cbn [andb] in Hs.
+      destruct (tgt_prot s (ref_tgt ob o) && negb rc) eqn:Ec; [destruct par; discriminate|].
+      assert (Hs' : s' = add_handle s (mk_ref (ref_tgt ob o) rc par (tgt_prot s (ref_tgt ob o)))) by (destruct par; congruence).
+      subst s'. apply Inv_add; [exact HI|]. intros Hc. cbn in Hc. subst rc. rewrite andb_true_r in Ec. cbn. rewrite Ec.
+      repeat split; auto. intros _ _ t [= <-]. exact Ec.
+  - (* OHRef through a reference / alias *)
+    destruct (nth_error (ptrs s) h) as [hp|] eqn:Eh; [|discriminate].
+    destruct (pkind hp) eqn:Ek; try discriminate; destruct (ptgt hp) as [t|] eqn:Et; try discriminate.
+    + rewrite Ha in Hs. cbn [andb] in Hs. destruct ((ppc hp || tgt_prot s t) && negb rc) eqn:Ec; [discriminate|].
+      injection Hs as <-. apply Inv_add; [exact HI|]. intros Hc. cbn in Hc. subst rc. rewrite andb_true_r in Ec.
+      apply orb_false_iff in Ec as [Ec1 Ec2].
+      assert (Hal : is_alias hp = false) by (unfold is_alias; rewrite Ek; reflexivity).
+      destruct (Inv_writable s h hp HI Eh Ec1 Hal) as [H1 H2]. cbn. rewrite H1, Ec2. repeat split; auto.
+      intros _ _ t' [= <-]. exact Ec2.
+    + destruct (negb par); [discriminate|]. injection Hs as <-. apply Inv_add; [exact HI|]. intros Hc. cbn.
+      split; [discriminate|]. intros E1 E2 t' [= <-]. apply orb_false_iff in E2 as [E2 E3].
+      destruct (HI h hp Eh E1) as [_ H2]. auto.
+  - apply (Inv_transfer s); auto. des Hs; injection Hs as <-; reflexivity.
+  - apply (Inv_transfer s); auto. des Hs; injection Hs as <-; reflexivity.
+  - destruct (src_target s src) as [tg|] eqn:Et; [|discriminate].
+    destruct (acq_check pol s AArg pc src) eqn:Ea; [discriminate|]. injection Hs as <-.
+    apply Inv_add; [exact HI|]. eapply hok_new_ptr; eauto.
+  - destruct (nth_error (ptrs s) h) as [hp|] eqn:Eh; [|discriminate]. des Hs. injection Hs as <-.
+    apply Inv_upd; [exact HI|]. intros pt Hpt. rewrite Eh in Hpt. injection Hpt as <-.
+    intros Hc. cbn in Hc. destruct (HI h hp Eh Hc) as [H1 H2]. cbn. split; [exact H1|exact H2].
 Qed.
 
 Lemma read_write_other s o k v o' k' : (o, k) <> (o', k') -> read_slot (write_slot s o k v) o' k' = read_slot s o' k'.
@@ -192,79 +281,186 @@ Lemma store_keeps pol st s o k v ob o' k' ob' :
   nth_error (objs s) o' = Some ob' -> slot_prot ob' k' = true ->
   read_slot (store pol st s o k v) o' k' = read_slot s o' k'.
 Proof. intros. unfold store. destruct (eff pol st); [eapply write_keeps; eauto|reflexivity]. Qed.
+Lemma read_mark b s o k : read_slot (mark b s) o k = read_slot s o k. Proof. reflexivity. Qed.
+Lemma whole_keeps s o vs g ob o' k' ob' :
+  nth_error (objs s) o = Some ob -> oconst ob = false -> has_cmember ob = false ->
+  nth_error (objs s) o' = Some ob' -> slot_prot ob' k' = true ->
+  read_slot {| objs := upd_nth o (set_vals vs) (objs s); ptrs := ptrs s; gbad := g |} o' k' = read_slot s o' k'.
+Proof.
+  intros Eo Ec Ecm Ho' Hp'. unfold read_slot; cbn. destruct (Nat.eq_dec o o') as [<-|Hne].
+  - exfalso. rewrite Eo in Ho'. injection Ho' as <-. unfold slot_prot in Hp'. rewrite Ec, no_cmember_nth in Hp' by exact Ecm. discriminate.
+  - rewrite nth_error_upd_other by exact Hne. reflexivity.
+Qed.
+
+Lemma ref_store_check_none t ob hp : ref_store_check t ob hp = None -> ppc hp = false.
+Proof. unfold ref_store_check. destruct t; [destruct (oconst ob); [discriminate|]|]; destruct (ppc hp); congruence. Qed.
 
 Lemma step_prot pol s x s' o' k' ob' : all_checked pol -> Inv s -> step pol s x = Ok s' ->
   nth_error (objs s) o' = Some ob' -> slot_prot ob' k' = true -> read_slot s' o' k' = read_slot s o' k'.
 Proof.
   intros Ha HI Hs Ho' Hp'.
-  destruct x as [f o k u|o vs|pc cc [src|]|p src|f p m u|param rc o k u|src u|f p d]; cbn [step] in Hs.
+  destruct x as [f o k u|o vs|pc cc [src|]|p src|f p m u|param rc o k u|src u|f p d|par rc [o|h]|f h m u|h vs|pc src|h];
+    cbn [step] in Hs.
   - destruct (nth_error (objs s) o) as [ob|] eqn:Eo; [|discriminate]. destruct (nth_error (ovals ob) k); [|discriminate].
     rewrite Ha in Hs. cbn [andb] in Hs. destruct (slot_prot ob k) eqn:Ep; [discriminate|]. injection Hs as <-.
     eapply store_keeps; eauto.
   - destruct (nth_error (objs s) o) as [ob|] eqn:Eo; [|discriminate]. destruct (negb _); [discriminate|].
     rewrite !Ha in Hs. cbn [andb] in Hs. destruct (oconst ob) eqn:Ec; [discriminate|].
-    destruct (has_cmember ob) eqn:Ecm; [discriminate|]. injection Hs as <-.
-    unfold read_slot; cbn. destruct (Nat.eq_dec o o') as [<-|Hne].
-    + exfalso. rewrite Eo in Ho'. injection Ho' as <-. unfold slot_prot in Hp'. rewrite Ec, no_cmember_nth in Hp' by exact Ecm. discriminate.
-    + rewrite nth_error_upd_other by exact Hne. reflexivity.
-  - destruct (src_target s src); [|discriminate]. destruct (acq_check _ _ _ _ _); [discriminate|]. injection Hs as <-. reflexivity.
+    destruct (has_cmember ob) eqn:Ecm; [discriminate|]. injection Hs as <-. eapply whole_keeps; eauto.
+  - des Hs; injection Hs as <-; reflexivity.
   - injection Hs as <-. reflexivity.
-  - destruct (nth_error (ptrs s) p) as [pt|]; [|discriminate]. destruct (src_target s src); [|discriminate].
-    destruct (_ && _); [discriminate|]. destruct (acq_check _ _ _ _ _); [discriminate|]. injection Hs as <-. reflexivity.
-  - destruct (nth_error (ptrs s) p) as [pt|] eqn:Ep; [|discriminate].
+  - des Hs; injection Hs as <-; reflexivity.
+  - destruct (nth_error (ptrs s) p) as [pt|] eqn:Ep; [|discriminate]. destruct (negb (is_ptr pt)) eqn:Ek; [discriminate|].
+    apply negb_false_iff in Ek.
     destruct (store_slot (ptgt pt) (pform_member f) m) as [[o k2]|] eqn:Ess; [|discriminate].
     destruct (nth_error (objs s) o) as [ob|] eqn:Eo; [|discriminate]. destruct (nth_error (ovals ob) k2); [|discriminate].
     rewrite !Ha in Hs. cbn [andb] in Hs. destruct (ppc pt) eqn:Epc; [discriminate|].
+    destruct (Inv_writable s p pt HI Ep Epc (is_ptr_not_alias _ Ek)) as [_ HT].
     assert (Hun : slot_prot ob k2 = false).
     { unfold store_slot in Ess. destruct (ptgt pt) as [[o0|o0 k0]|] eqn:Et; try discriminate; destruct (pform_member f) eqn:Em; try discriminate;
         injection Ess as <- <-.
-      - assert (H0 := HI p pt (TObj o0) Ep Epc Et). cbn in H0. rewrite Eo in H0. unfold slot_prot. rewrite H0. cbn.
+      - assert (H0 := HT _ eq_refl). cbn in H0. rewrite Eo in H0. unfold slot_prot. rewrite H0. cbn.
         rewrite andb_true_r in Hs. cbn in Hs. destruct (nth m (omconst ob) false); [discriminate|reflexivity].
-      - assert (H0 := HI p pt (TSlot o0 k0) Ep Epc Et). cbn in H0. rewrite Eo in H0. exact H0. }
-    destruct (_ && _); [discriminate|]. injection Hs as <-. eapply store_keeps; eauto.
+      - assert (H0 := HT _ eq_refl). cbn in H0. rewrite Eo in H0. exact H0. }
+    destruct (_ && _); [discriminate|]. injection Hs as <-. rewrite read_mark. eapply store_keeps; eauto.
   - destruct (nth_error (objs s) o) as [ob|] eqn:Eo; [|discriminate]. destruct (nth_error (ovals ob) k); [|discriminate].
     rewrite !Ha in Hs. cbn [andb] in Hs. destruct rc; cbn [negb andb] in Hs.
     + rewrite andb_false_r in Hs. discriminate.
-    + rewrite andb_true_r in Hs. destruct (slot_prot ob k) eqn:Ep; [discriminate|]. injection Hs as <-. eapply write_keeps; eauto.
+    + rewrite andb_true_r in Hs. destruct (slot_prot ob k) eqn:Ep; [discriminate|]. injection Hs as <-. rewrite read_mark. eapply write_keeps; eauto.
   - destruct (src_target s src) as [[[o|o k]|]|] eqn:Et; try discriminate.
     destruct (read_slot s o k) eqn:Er; [|discriminate]. destruct (acq_check pol s AArg false src) eqn:Ea; [discriminate|]. injection Hs as <-.
-    assert (Hun : tgt_prot s (TSlot o k) = false).
-    { eapply src_target_unprot; eauto. eapply acq_ok; eauto. }
-    cbn in Hun. unfold read_slot in Er. destruct (nth_error (objs s) o) as [ob|] eqn:Eo; [|discriminate]. eapply write_keeps; eauto.
-  - destruct (nth_error (ptrs s) p) as [pt|]; [|discriminate]. destruct (ptgt pt) as [[o|o k]|]; try discriminate.
-    destruct (nth_error (objs s) o) as [ob|]; [|discriminate]. destruct (oshape ob); try discriminate.
-    destruct (_ || _); [discriminate|]. destruct (_ && _); [discriminate|]. injection Hs as <-. reflexivity.
+    destruct (src_clean s src _ HI Et (acq_ok _ _ _ _ _ Ha Ea eq_refl)) as [_ HT].
+    assert (Hun := HT _ eq_refl). cbn in Hun. unfold read_slot in Er. destruct (nth_error (objs s) o) as [ob|] eqn:Eo; [|discriminate].
+    rewrite read_mark. eapply write_keeps; eauto.
+  - des Hs; injection Hs as <-; reflexivity.
+  - des Hs; injection Hs as <-; reflexivity.
+  - des Hs; injection Hs as <-; reflexivity.
+  - (* store through a reference / an array parameter *)
+    destruct (nth_error (ptrs s) h) as [hp|] eqn:Eh; [|discriminate].
+    destruct (pkind hp) eqn:Ek; try discriminate; destruct (ptgt hp) as [t|] eqn:Et; try discriminate.
+    + assert (Hal : is_alias hp = false) by (unfold is_alias; rewrite Ek; reflexivity).
+      destruct f; try discriminate;
+      (destruct (nth_error (objs s) (tgt_obj t)) as [ob|] eqn:Eo; [|discriminate];
+       destruct (nth_error (ovals ob) _) eqn:Ev; [|discriminate];
+       rewrite !Ha in Hs; cbn [andb] in Hs;
+       destruct (nth _ (omconst ob) false) eqn:Emc; [discriminate|];
+       destruct (ref_store_check t ob hp) as [st|] eqn:Erc; [rewrite Ha in Hs; discriminate|]; injection Hs as <-; rewrite read_mark;
+       destruct (Inv_writable s h hp HI Eh (ref_store_check_none _ _ _ Erc) Hal) as [_ HT];
+       assert (Etp := HT _ Et);
+       eapply write_keeps; eauto;
+       destruct t as [o0|o0 k0]; cbn in Etp, Eo |- *; rewrite Eo in Etp; [unfold slot_prot; rewrite Etp, Emc; reflexivity|exact Etp]).
+    + destruct t as [o|o k]; [|discriminate]. destruct (nth_error (objs s) o) as [ob|] eqn:Eo; [|discriminate].
+      destruct (nth_error (ovals ob) m) eqn:Ev; [|discriminate].
+      destruct (alias_site false f hp) as [st|] eqn:Eas; [rewrite Ha in Hs; discriminate|].
+      rewrite Ha in Hs. cbn [andb] in Hs. destruct (nth m (omconst ob) false) eqn:Emc; [discriminate|]. injection Hs as <-.
+      unfold alias_site in Eas. destruct (ppc hp) eqn:E0; [discriminate|]. destruct (pp1 hp) eqn:E1; [discriminate|].
+      destruct (ppd hp) eqn:E2; [discriminate|].
+      destruct (HI h hp Eh E0) as [_ HT]. assert (H0 := HT E1 E2 _ Et). cbn in H0. rewrite Eo in H0.
+      eapply write_keeps; eauto. unfold slot_prot. rewrite H0, Emc. reflexivity.
+  - destruct (nth_error (ptrs s) h) as [hp|] eqn:Eh; [|discriminate].
+    destruct (pkind hp) eqn:Ek; try discriminate; destruct (ptgt hp) as [[o|o k]|] eqn:Et; try discriminate.
+    destruct (nth_error (objs s) o) as [ob|] eqn:Eo; [|discriminate].
+    destruct (negb (Nat.eqb (length vs) (length (ovals ob))) || has_cmember ob) eqn:El; [discriminate|].
+    apply orb_false_iff in El as [_ Ecm].
+    destruct (alias_site true FAssign hp) as [st|] eqn:Eas; [rewrite Ha in Hs; discriminate|]. injection Hs as <-.
+    unfold alias_site in Eas. destruct (ppc hp) eqn:E0; [discriminate|]. destruct (pp1 hp) eqn:E1; [discriminate|].
+    destruct (ppd hp) eqn:E2; [discriminate|].
+    destruct (HI h hp Eh E0) as [_ HT]. assert (H0 := HT E1 E2 _ Et). cbn in H0. rewrite Eo in H0.
+    eapply whole_keeps; eauto.
+  - des Hs; injection Hs as <-; reflexivity.
+  - des Hs; injection Hs as <-; reflexivity.
 Qed.
 
-(* a const pointer is the same pointer after any accepted step *)
+(* a const pointer / a reference / an array parameter still refers to the same thing after any accepted step *)
+Definition same_handle (a b : ptr) : Prop := ptgt b = ptgt a /\ pcc b = true /\ ppc b = ppc a /\ pkind b = pkind a.
+Lemma same_handle_refl a : pcc a = true -> same_handle a a. Proof. unfold same_handle; auto. Qed.
+
+Lemma nth_error_add {A} (l : list A) a p x : nth_error l p = Some x -> nth_error (l ++ [a]) p = Some x.
+Proof. intros H. rewrite nth_error_app1; [exact H|]. apply nth_error_Some. congruence. Qed.
+
 Lemma step_cptr pol s x s' p pt : all_checked pol -> step pol s x = Ok s' ->
-  nth_error (ptrs s) p = Some pt -> pcc pt = true -> nth_error (ptrs s') p = Some pt.
+  nth_error (ptrs s) p = Some pt -> pcc pt = true -> exists pt', nth_error (ptrs s') p = Some pt' /\ same_handle pt pt'.
 Proof.
-  intros Ha Hs Hp Hc.
-  destruct x as [f o k u|o vs|pc cc [src|]|q src|f q m u|param rc o k u|src u|f q d]; cbn [step] in Hs.
-  - destruct (nth_error (objs s) o) as [ob|]; [|discriminate]. destruct (nth_error (ovals ob) k); [|discriminate].
-    destruct (_ && _); [discriminate|]. injection Hs as <-. unfold store. destruct (eff _ _); exact Hp.
-  - destruct (nth_error (objs s) o) as [ob|]; [|discriminate]. destruct (negb _); [discriminate|].
-    destruct (_ && _); [discriminate|]. destruct (_ && _); [discriminate|]. injection Hs as <-. exact Hp.
-  - destruct (src_target s src); [|discriminate]. destruct (acq_check _ _ _ _ _); [discriminate|]. injection Hs as <-.
-    cbn. rewrite nth_error_app1; [exact Hp|]. apply nth_error_Some. congruence.
-  - injection Hs as <-. cbn. rewrite nth_error_app1; [exact Hp|]. apply nth_error_Some. congruence.
+  intros Ha Hs Hp Hc. assert (R := same_handle_refl pt Hc).
+  destruct x as [f o k u|o vs|pc cc [src|]|q src|f q m u|param rc o k u|src u|f q d|par rc [o|h]|f h m u|h vs|pc src|h];
+    cbn [step] in Hs.
+  - des Hs; injection Hs as <-; exists pt; split; auto; unfold store; destruct (eff _ _); exact Hp.
+  - des Hs; injection Hs as <-; exists pt; split; auto.
+  - des Hs; injection Hs as <-; exists pt; split; auto; apply nth_error_add; exact Hp.
+  - injection Hs as <-; exists pt; split; auto; apply nth_error_add; exact Hp.
   - destruct (nth_error (ptrs s) q) as [pt0|] eqn:Eq; [|discriminate]. destruct (src_target s src); [|discriminate].
+    destruct (negb (is_ptr pt0)); [discriminate|].
     rewrite Ha in Hs. cbn [andb] in Hs. destruct (pcc pt0) eqn:E0; [discriminate|].
-    destruct (acq_check _ _ _ _ _); [discriminate|]. injection Hs as <-. cbn.
+    destruct (acq_check _ _ _ _ _); [discriminate|]. injection Hs as <-. exists pt. split; auto. cbn.
     rewrite nth_error_upd_other; [exact Hp|]. intros ->. congruence.
-  - destruct (nth_error (ptrs s) q) as [pt0|]; [|discriminate].
-    destruct (store_slot _ _ _) as [[o k']|]; [|discriminate].
-    destruct (nth_error (objs s) o) as [ob|]; [|discriminate]. destruct (nth_error (ovals ob) k'); [|discriminate].
-    destruct (_ && _); [discriminate|]. destruct (_ && _); [discriminate|]. injection Hs as <-. unfold store. destruct (eff _ _); exact Hp.
-  - destruct (nth_error (objs s) o) as [ob|]; [|discriminate]. destruct (nth_error (ovals ob) k); [|discriminate].
-    destruct (_ && _); [discriminate|]. destruct (_ && _); [discriminate|]. injection Hs as <-. exact Hp.
-  - destruct (src_target s src) as [[[o|o k]|]|]; try discriminate.
-    destruct (read_slot s o k); [|discriminate]. destruct (acq_check _ _ _ _ _); [discriminate|]. injection Hs as <-. exact Hp.
-  - destruct (nth_error (ptrs s) q) as [pt0|] eqn:Eq; [|discriminate]. destruct (ptgt pt0) as [[o|o k]|]; try discriminate.
+  - des Hs; injection Hs as <-; exists pt; split; auto; unfold store; destruct (eff _ _); exact Hp.
+  - des Hs; injection Hs as <-; exists pt; split; auto.
+  - des Hs; injection Hs as <-; exists pt; split; auto.
+  - destruct (nth_error (ptrs s) q) as [pt0|] eqn:Eq; [|discriminate]. destruct (negb (is_ptr pt0)); [discriminate|].
+    destruct (ptgt pt0) as [[o|o k]|]; try discriminate.
     destruct (nth_error (objs s) o) as [ob|]; [|discriminate]. destruct (oshape ob); try discriminate.
     destruct (_ || _); [discriminate|]. rewrite Ha in Hs. cbn [andb] in Hs. destruct (pcc pt0) eqn:E0; [discriminate|].
-    injection Hs as <-. cbn. rewrite nth_error_upd_other; [exact Hp|]. intros ->. congruence.
+    injection Hs as <-. exists pt. split; auto. cbn. rewrite nth_error_upd_other; [exact Hp|]. intros ->. congruence.
+  - des Hs; injection Hs as <-; exists pt; split; auto; apply nth_error_add; exact Hp.
+  - des Hs; injection Hs as <-; exists pt; split; auto; apply nth_error_add; exact Hp.
+  - des Hs; injection Hs as <-; exists pt; split; auto.
+  - des Hs; injection Hs as <-; exists pt; split; auto.
+  - des Hs; injection Hs as <-; exists pt; split; auto; apply nth_error_add; exact Hp.
+  - destruct (nth_error (ptrs s) h) as [hp|] eqn:Eh; [|discriminate]. des Hs. injection Hs as <-. cbn.
+    destruct (Nat.eq_dec h p) as [->|Hne].
+    + rewrite nth_error_upd_same, Hp. cbn. eexists; split; [reflexivity|]. unfold same_handle, set_mat; cbn. auto.
+    + rewrite nth_error_upd_other by exact Hne. exists pt; auto.
+Qed.
+
+(* ghost: under a policy that makes every test no store is ever carried out through a const view or through a handle
+   derived from something const *)
+Lemma step_gbad pol s x s' : all_checked pol -> Inv s -> step pol s x = Ok s' -> gbad s' = gbad s.
+Proof.
+  intros Ha HI Hs.
+  destruct x as [f o k u|o vs|pc cc [src|]|p src|f p m u|param rc o k u|src u|f p d|par rc [o|h]|f h m u|h vs|pc src|h];
+    cbn [step] in Hs.
+  - des Hs; injection Hs as <-; unfold store; destruct (eff _ _); reflexivity.
+  - des Hs; injection Hs as <-; reflexivity.
+  - des Hs; injection Hs as <-; reflexivity.
+  - injection Hs as <-; reflexivity.
+  - des Hs; injection Hs as <-; reflexivity.
+  - destruct (nth_error (ptrs s) p) as [pt|] eqn:Ep; [|discriminate]. destruct (negb (is_ptr pt)) eqn:Ek; [discriminate|].
+    apply negb_false_iff in Ek. destruct (store_slot _ _ _) as [[o k2]|]; [|discriminate].
+    destruct (nth_error (objs s) o) as [ob|]; [|discriminate]. destruct (nth_error (ovals ob) k2); [|discriminate].
+    rewrite !Ha in Hs. cbn [andb] in Hs. destruct (ppc pt) eqn:Epc; [discriminate|].
+    destruct (Inv_writable s p pt HI Ep Epc (is_ptr_not_alias _ Ek)) as [Hh _].
+    destruct (_ && _); [discriminate|]. injection Hs as <-. cbn. rewrite Hh, orb_false_r. unfold store. destruct (eff _ _); reflexivity.
+  - destruct (nth_error (objs s) o) as [ob|]; [|discriminate]. destruct (nth_error (ovals ob) k); [|discriminate].
+    rewrite !Ha in Hs. cbn [andb] in Hs. destruct rc; cbn [negb andb] in Hs.
+    + rewrite andb_false_r in Hs. discriminate.
+    + des Hs. injection Hs as <-. cbn. apply orb_false_r.
+  - destruct (src_target s src) as [[[o|o k]|]|] eqn:Et; try discriminate.
+    destruct (read_slot s o k); [|discriminate]. destruct (acq_check pol s AArg false src) eqn:Ea; [discriminate|]. injection Hs as <-.
+    destruct (src_clean s src _ HI Et (acq_ok _ _ _ _ _ Ha Ea eq_refl)) as [HT _]. cbn. rewrite HT. apply orb_false_r.
+  - des Hs; injection Hs as <-; reflexivity.
+  - des Hs; injection Hs as <-; reflexivity.
+  - des Hs; injection Hs as <-; reflexivity.
+  - destruct (nth_error (ptrs s) h) as [hp|] eqn:Eh; [|discriminate].
+    destruct (pkind hp) eqn:Ek; try discriminate; destruct (ptgt hp) as [t|] eqn:Et; try discriminate.
+    + assert (Hal : is_alias hp = false) by (unfold is_alias; rewrite Ek; reflexivity).
+      destruct f; try discriminate;
+      (destruct (nth_error (objs s) (tgt_obj t)) as [ob|]; [|discriminate];
+       destruct (nth_error (ovals ob) _); [|discriminate];
+       rewrite !Ha in Hs; cbn [andb] in Hs;
+       destruct (nth _ (omconst ob) false); [discriminate|];
+       destruct (ref_store_check t ob hp) as [st|] eqn:Erc; [rewrite Ha in Hs; discriminate|];
+       destruct (Inv_writable s h hp HI Eh (ref_store_check_none _ _ _ Erc) Hal) as [Hh _];
+       injection Hs as <-; cbn; rewrite Hh; apply orb_false_r).
+    + destruct t as [o|o k]; [|discriminate]. destruct (nth_error (objs s) o) as [ob|]; [|discriminate].
+      destruct (nth_error (ovals ob) m); [|discriminate].
+      destruct (alias_site false f hp) as [st|]; [rewrite Ha in Hs; discriminate|].
+      des Hs; injection Hs as <-; reflexivity.
+  - destruct (nth_error (ptrs s) h) as [hp|] eqn:Eh; [|discriminate].
+    destruct (pkind hp); try discriminate; destruct (ptgt hp) as [[o|o k]|]; try discriminate.
+    destruct (nth_error (objs s) o) as [ob|]; [|discriminate]. destruct (_ || _); [discriminate|].
+    destruct (alias_site true FAssign hp) as [st|]; [rewrite Ha in Hs; discriminate|]. injection Hs as <-. reflexivity.
+  - des Hs; injection Hs as <-; reflexivity.
+  - des Hs; injection Hs as <-; reflexivity.
 Qed.
 
 (* ------------------------------------------------------------------ whole scripts *)
@@ -286,40 +482,101 @@ Proof.
 Qed.
 
 Lemma const_ptr_not_reseated_l pol : all_checked pol -> forall ops i s p pt,
-  nth_error (ptrs s) p = Some pt -> pcc pt = true -> nth_error (ptrs (fst (run_from pol i s ops))) p = Some pt.
+  nth_error (ptrs s) p = Some pt -> pcc pt = true ->
+  exists pt', nth_error (ptrs (fst (run_from pol i s ops))) p = Some pt' /\ same_handle pt pt'.
 Proof.
-  intros Ha. induction ops as [|x r IH]; intros i s p pt Hp Hc; cbn [run_from]; [exact Hp|].
-  destruct (step pol s x) as [s'| |] eqn:Es; [|exact Hp|exact Hp]. apply IH; [|exact Hc]. eapply step_cptr; eauto.
+  intros Ha. induction ops as [|x r IH]; intros i s p pt Hp Hc; cbn [run_from]; [exists pt; split; auto using same_handle_refl|].
+  destruct (step pol s x) as [s'| |] eqn:Es; [|exists pt; split; auto using same_handle_refl|exists pt; split; auto using same_handle_refl].
+  destruct (step_cptr _ _ _ _ _ _ Ha Es Hp Hc) as (pt1 & H1 & (E1 & E2 & E3 & E4)).
+  destruct (IH (S i) s' p pt1 H1 E2) as (pt2 & H2 & (F1 & F2 & F3 & F4)).
+  exists pt2. split; [exact H2|]. unfold same_handle. repeat split; congruence.
+Qed.
+
+Lemma no_store_through_const_view_l pol : all_checked pol -> forall ops i s, Inv s -> gbad (fst (run_from pol i s ops)) = gbad s.
+Proof.
+  intros Ha. induction ops as [|x r IH]; intros i s HI; cbn [run_from]; [reflexivity|].
+  destruct (step pol s x) as [s'| |] eqn:Es; [|reflexivity|reflexivity].
+  rewrite IH by (eapply step_inv; eauto). eapply step_gbad; eauto.
 Qed.
 
 (* ------------------------------------------------------------------ the individual rules *)
 Lemma addr_of_const_needs_const_ptr_l pol s t : all_checked pol -> valid_tgt s t = true -> tgt_prot s t = true ->
   (forall cc, exists st, step pol s (OPtrNew false cc (Some (PAddr t))) = Rejected st) /\
-  (forall p pt, nth_error (ptrs s) p = Some pt -> ppc pt = false -> exists st, step pol s (OPtrSet p (PAddr t)) = Rejected st) /\
+  (forall p pt, nth_error (ptrs s) p = Some pt -> is_ptr pt = true -> ppc pt = false -> exists st, step pol s (OPtrSet p (PAddr t)) = Rejected st) /\
   (forall u, step pol s (OPtrCall (PAddr t) u) = Stuck \/ exists st, step pol s (OPtrCall (PAddr t) u) = Rejected st) /\
-  (forall cc, exists s', step pol s (OPtrNew true cc (Some (PAddr t))) = Ok s').
+  (exists st, step pol s (OPtrParam false (PAddr t)) = Rejected st) /\
+  (forall cc, exists s', step pol s (OPtrNew true cc (Some (PAddr t))) = Ok s') /\
+  (exists s', step pol s (OPtrParam true (PAddr t)) = Ok s').
 Proof.
   intros Ha Hv Hp. repeat split.
   - intros cc. cbn [step src_target]. rewrite Hv. unfold acq_check. rewrite Ha. cbn [src_const]. rewrite Hp. cbn. eauto.
-  - intros p pt Hn Hc. cbn [step src_target]. rewrite Hn, Hv. rewrite Ha. cbn [andb].
+  - intros p pt Hn Hk Hc. cbn [step src_target]. rewrite Hn, Hv, Hk. cbn [negb]. rewrite Ha. cbn [andb].
     destruct (pcc pt); [eauto|]. unfold acq_check. rewrite Ha, Hc. cbn [src_const]. rewrite Hp. cbn. eauto.
   - intros u. cbn [step src_target]. rewrite Hv. destruct t as [o|o k]; [left; reflexivity|].
     destruct (read_slot s o k); [|left; reflexivity]. right. unfold acq_check. rewrite Ha. cbn [src_const]. rewrite Hp. cbn. eauto.
+  - cbn [step src_target]. rewrite Hv. unfold acq_check. rewrite Ha. cbn [src_const]. rewrite Hp. cbn. eauto.
   - intros cc. cbn [step src_target]. rewrite Hv. unfold acq_check. cbn [negb]. rewrite andb_false_r. eauto.
+  - cbn [step src_target]. rewrite Hv. unfold acq_check. cbn [negb]. rewrite andb_false_r. eauto.
 Qed.
 
-Lemma ptc_no_write_l pol s p pt : all_checked pol -> nth_error (ptrs s) p = Some pt -> ppc pt = true ->
+(* a pointer to const (variable or parameter): no store form goes through it, it cannot be copied into a pointer that permits
+   writes, nor passed on to a `T*` parameter *)
+Lemma ptc_no_write_l pol s p pt : all_checked pol -> nth_error (ptrs s) p = Some pt -> is_ptr pt = true -> ppc pt = true ->
   (forall f m u, step pol s (OPtrStore f p m u) = Stuck \/ exists st, step pol s (OPtrStore f p m u) = Rejected st) /\
   (forall cc, exists st, step pol s (OPtrNew false cc (Some (PCopy p))) = Rejected st) /\
-  (forall u, step pol s (OPtrCall (PCopy p) u) = Stuck \/ exists st, step pol s (OPtrCall (PCopy p) u) = Rejected st).
+  (forall u, step pol s (OPtrCall (PCopy p) u) = Stuck \/ exists st, step pol s (OPtrCall (PCopy p) u) = Rejected st) /\
+  (exists st, step pol s (OPtrParam false (PCopy p)) = Rejected st) /\
+  (forall q pq, nth_error (ptrs s) q = Some pq -> is_ptr pq = true -> ppc pq = false -> exists st, step pol s (OPtrSet q (PCopy p)) = Rejected st).
 Proof.
-  intros Ha Hn Hc. repeat split.
-  - intros f m u. cbn [step]. rewrite Hn. destruct (store_slot _ _ _) as [[o k']|]; [|auto].
+  intros Ha Hn Hk Hc. repeat split.
+  - intros f m u. cbn [step]. rewrite Hn, Hk. cbn [negb]. destruct (store_slot _ _ _) as [[o k']|]; [|auto].
     destruct (nth_error (objs s) o) as [ob|]; [|auto]. destruct (nth_error (ovals ob) k'); [|auto].
     rewrite Ha, Hc. cbn. eauto.
-  - intros cc. cbn [step src_target]. rewrite Hn. unfold acq_check. rewrite Ha. cbn [src_const]. rewrite Hn, Hc. cbn. eauto.
-  - intros u. cbn [step src_target]. rewrite Hn. destruct (ptgt pt) as [[o|o k]|]; auto.
+  - intros cc. cbn [step src_target]. rewrite Hn, Hk. unfold acq_check. rewrite Ha. cbn [src_const]. rewrite Hn, Hc. cbn. eauto.
+  - intros u. cbn [step src_target]. rewrite Hn, Hk. destruct (ptgt pt) as [[o|o k]|]; auto.
     destruct (read_slot s o k); [|auto]. right. unfold acq_check. rewrite Ha. cbn [src_const]. rewrite Hn, Hc. cbn. eauto.
+  - cbn [step src_target]. rewrite Hn, Hk. unfold acq_check. rewrite Ha. cbn [src_const]. rewrite Hn, Hc. cbn. eauto.
+  - intros q pq Hq Hkq Hcq. cbn [step src_target]. rewrite Hq, Hn, Hk, Hkq. cbn [negb]. rewrite Ha. cbn [andb].
+    destruct (pcc pq); [eauto|]. unfold acq_check. rewrite Ha, Hcq. cbn [src_const]. rewrite Hn, Hc. cbn. eauto.
+Qed.
+
+(* a reference to const (local or parameter): no store goes through it and no reference that permits writes can be bound
+   through it, neither locally nor as the argument of a further call *)
+Lemma cref_no_write_l pol s h hp : all_checked pol -> nth_error (ptrs s) h = Some hp -> pkind hp = HRef -> ppc hp = true ->
+  (forall f m u, step pol s (OHStore f h m u) = Stuck \/ exists st, step pol s (OHStore f h m u) = Rejected st) /\
+  (forall par, step pol s (OHRef par false (HVia h)) = Stuck \/ exists st, step pol s (OHRef par false (HVia h)) = Rejected st).
+Proof.
+  intros Ha Hn Hk Hc. split.
+  - intros f m u. cbn [step]. rewrite Hn, Hk. destruct (ptgt hp) as [t|]; [|auto]. destruct f; auto;
+      (destruct (nth_error (objs s) (tgt_obj t)) as [ob|]; [|auto]; destruct (nth_error (ovals ob) _); [|auto];
+       assert (E : exists st, ref_store_check t ob hp = Some st)
+         by (unfold ref_store_check; rewrite Hc; destruct t; [destruct (oconst ob)|]; eauto);
+       destruct E as (st & ->); rewrite !Ha; cbn [andb]; destruct (nth _ (omconst ob) false); eauto).
+  - intros par. cbn [step]. rewrite Hn, Hk. destruct (ptgt hp) as [t|]; [|auto]. rewrite Ha, Hc. cbn. eauto.
+Qed.
+
+(* an array parameter with a const anywhere up its chain (itself, what it was bound to, further up): no store goes through
+   it, and the same holds for every array parameter bound through it *)
+Lemma alias_no_write_l pol s h hp : all_checked pol -> nth_error (ptrs s) h = Some hp -> pkind hp = HAlias -> hconst hp = true ->
+  (forall f m u, step pol s (OHStore f h m u) = Stuck \/ exists st, step pol s (OHStore f h m u) = Rejected st) /\
+  (forall vs, step pol s (OHWhole h vs) = Stuck \/ exists st, step pol s (OHWhole h vs) = Rejected st) /\
+  (forall rc s', step pol s (OHRef true rc (HVia h)) = Ok s' ->
+     exists hp', nth_error (ptrs s') (length (ptrs s)) = Some hp' /\ pkind hp' = HAlias /\ hconst hp' = true /\ ptgt hp' = ptgt hp).
+Proof.
+  intros Ha Hn Hk Hc.
+  assert (Has : forall w f, exists st, alias_site w f hp = Some st).
+  { intros w f. unfold alias_site. unfold hconst in Hc. destruct (ppc hp); [eauto|]. destruct (pp1 hp); [eauto|].
+    destruct (ppd hp); [eauto|discriminate]. }
+  repeat split.
+  - intros f m u. cbn [step]. rewrite Hn, Hk. destruct (ptgt hp) as [[o|o k]|]; auto.
+    destruct (nth_error (objs s) o) as [ob|]; [|auto]. destruct (nth_error (ovals ob) m); [|auto].
+    destruct (Has false f) as (st & ->). rewrite Ha. eauto.
+  - intros vs. cbn [step]. rewrite Hn, Hk. destruct (ptgt hp) as [[o|o k]|]; auto.
+    destruct (nth_error (objs s) o) as [ob|]; [|auto]. destruct (_ || _); [auto|].
+    destruct (Has true FAssign) as (st & ->). rewrite Ha. eauto.
+  - intros rc s' Hs. cbn [step] in Hs. rewrite Hn, Hk in Hs. destruct (ptgt hp) as [t|] eqn:Et; [|discriminate].
+    cbn in Hs. injection Hs as <-. eexists. split; [cbn; rewrite nth_error_app2, Nat.sub_diag by auto; reflexivity|].
+    cbn. repeat split. unfold hconst in *. cbn. destruct rc, (ppc hp), (pp1 hp), (ppd hp); cbn in *; congruence.
 Qed.
 
 (* every direct mutation form of a protected slot *)
@@ -333,4 +590,13 @@ Proof.
   - intros f u. cbn [step]. rewrite Ho, Ek, Ha, Hp. cbn. eauto.
   - intros param rc u. cbn [step]. rewrite Ho, Ek, !Ha, Hp. cbn. destruct rc; cbn; eauto.
   - intros Hc vs. cbn [step]. rewrite Ho. destruct (negb _); [auto|]. rewrite Ha, Hc. cbn. auto.
+Qed.
+
+(* no reference that permits writes is bound to a protected bare variable, locally or as an argument *)
+Lemma bind_const_rejected_l pol s o ob : all_checked pol -> nth_error (objs s) o = Some ob -> oshape ob <> Arr ->
+  tgt_prot s (ref_tgt ob o) = true ->
+  forall par, step pol s (OHRef par false (HObj o)) = Stuck \/ exists st, step pol s (OHRef par false (HObj o)) = Rejected st.
+Proof.
+  intros Ha Ho Hsh Hp par. cbn [step]. rewrite Ho.
+  destruct (oshape ob) eqn:Es; [|congruence|]; (destruct (negb (valid_tgt s (ref_tgt ob o))); [auto|]; rewrite Ha, Hp; cbn; eauto).
 Qed.
